@@ -28,4 +28,7 @@ def run(ctx, rep):
     recursion.rule_path_entries_released(ctx, rep, "C11-R8", lambda q: q in ("context:Context._to_python", "context:Context._to_js"))
     recursion.rule_persistent_path_balanced(ctx, rep, "C11-R9")
     objmodel.rule_converters_use_object_model(ctx, rep, "C11-R10")
+    from ..rules import hashorder
+
+    hashorder.rule_no_pick_from_set(ctx, rep, "C11-R11", only=lambda f: f.module.name == "context")
     rep.undecided += ["get(set(v)) == v for all value shapes (round-trip equality is a runtime property)"]
